@@ -54,3 +54,12 @@ Example C01_example :
   segT stream = ([f1; f2], SEnd) /\
   run 2000 init_scanner (mk stream [1; 0; 0; 1; 2; 0; 1; 1; 1; 1; 1; 1; 3; 0; 500] (TPort 7) false) [] = Some ([f1; f2], TPort 7).
 Proof. split; vm_compute; reflexivity. Qed.
+
+(* The model IS the code: the split function ScanMessages as REGENERATED statement by statement from scanmessages.go
+   on this run agrees with scan_messages on every buffer bufio.Scanner can hand it (a non-empty one, or the empty
+   one at end of input; Go panics on an empty buffer before end of input and bufio never calls it so) *)
+Require Import Base.GoBytes Gen.Bytes Tie.BytesAgree.
+Theorem C01_split_function_model_is_the_source : forall d eof, d <> nil \/ eof = true ->
+  g_scan (g_ScanMessages d eof) = Some (scan_messages d eof).
+Proof. exact scan_agrees. Qed.
+Print Assumptions C01_split_function_model_is_the_source.
